@@ -387,7 +387,7 @@ class Fn:
         if len(proj) >= 2 and proj[0][0] == "downcast" and proj[1][0] == "field" and proj[1][1] == 0 and depth < 40:
             src_l = None
             if base[0] == "var":
-                src_l, want = l, proj[0][2]
+                src_l, want = base[1], proj[0][2]      # (the local the value was copied from, not necessarily the place's own)
             elif base[0] == "call" and base[1] and base[1].endswith("Try::branch") and proj[0][2] == "Continue" and base[2]:
                 inner = strip_refs(base[2][0])
                 if inner[0] == "var":
@@ -412,11 +412,16 @@ class Fn:
                             clean = False
                     elif d[0] == "call" and (strip_generics(d[2].get("callee") or "")).endswith("FromResidual::from_residual"):
                         pass                                    # an early exit's value: never the success variant
+                    elif d[0] == "call":
+                        cands.append(d)                         # a fallible call's own result: its payload when it succeeded
                     else:
                         clean = False
                 if clean and len(cands) == 1:
                     d = cands[0]
-                    pay = pays[id(d)] if id(d) in pays else self.term_of_operand(d[3]["ops"][0], d[1], depth + 1)
+                    if d[0] == "call":
+                        pay = ("place", self.call_term(d[2], d[1], depth + 1), ("as:" + want, "0"))
+                    else:
+                        pay = pays[id(d)] if id(d) in pays else self.term_of_operand(d[3]["ops"][0], d[1], depth + 1)
                     rest = proj[2:]
                     if not rest:
                         return pay
@@ -436,7 +441,11 @@ class Fn:
                 return ("ovf", base)
         # field of a known aggregate
         while proj and (base[0] == "agg" and proj[0][0] == "field" and base[1] in ("Tuple", "Adt", "Closure") and proj[0][1] < len(base[3])
-                        or base[0] == "ref" and proj[0][0] == "deref"):
+                        or base[0] == "ref" and proj[0][0] == "deref"
+                        or base[0] == "agg" and base[1] == "Adt" and proj[0][0] == "downcast" and base[2] and base[2].split("::")[-1] == proj[0][2]):
+            if proj[0][0] == "downcast":
+                proj = proj[1:]                 # the variant the aggregate was built as
+                continue
             base = base[1] if base[0] == "ref" else base[3][proj[0][1]]
             proj = proj[1:]
         if not proj:
@@ -460,6 +469,11 @@ class Fn:
         if base[0] == "call" and base[1] and base[1].endswith(("Option::filter", "Option::inspect")) and len(names) >= 2 and names[0] == "as:Some" and names[1] == "0" and base[2]:
             # the payload of a filtered / inspected Option is the receiver's payload
             return _rebase(base[2][0], names)
+        if base[0] == "call" and base[1] and base[1].endswith("Option::map") and len(names) >= 2 and names[0] == "as:Some" and names[1] == "0" and len(base[2]) == 2:
+            # the payload of opt.map(f) is f(opt's payload), when f is a single expression
+            body_ = inline_closure(self.facts, base[2][1], [_rebase(base[2][0], ("as:Some", "0"))])
+            if body_ is not None:
+                return _rebase(body_, names[2:]) if names[2:] else body_
         return ("place", base, tuple(names))
 
     def _local_term(self, l, depth):
